@@ -21,7 +21,7 @@ import sys
 import time
 
 ROOT = os.path.dirname(os.path.dirname(os.path.abspath(__file__)))
-WT = "/tmp/verif-seeded-wt"
+WT = os.environ.get("VERIF_WT", "/tmp/verif-seeded-wt")
 BASE_FAIL = {"test_numpy_non_pickle", "test_numpy_pickle", "test_recursive_tar", "test_recursive_zip"}
 
 
